@@ -318,6 +318,23 @@ def check_net(H: CRNHyperGraph, M: Model, site: str, cond: str, other: bool) -> 
         for s, eids in idx.items():
             if s not in sp and eids:
                 _fail(site, wrap("index_mismatch_" + name), cond, {"absent_species_with_entries": s, "ids": sorted(eids)})
+    # the reading API reports the same state
+    if len(H) != len(mids) or sorted(e.id for e in H) != sorted(mids) or sorted(e.id for e in H.edge_list()) != sorted(mids):
+        _fail(site, wrap("read_api_mismatch"), cond, {"len": len(H), "iter": sorted(e.id for e in H), "model_ids": sorted(mids)})
+    if H.species_list() != sorted(sp):
+        _fail(site, wrap("read_api_mismatch"), cond, {"species_list": H.species_list(), "species": sorted(sp)})
+    for eid in sorted(mids):
+        ge = H.get_edge(eid)
+        if eid not in H or ge.id != eid or dict(ge.reactants.to_dict()) != M.rx[eid][1] or dict(ge.products.to_dict()) != M.rx[eid][2]:
+            _fail(site, wrap("read_api_mismatch"), cond, {"get_edge": eid})
+    for s in sorted(sp):
+        want_n = set()
+        for _rule, r, p in M.rx.values():
+            if s in r:
+                want_n |= set(p)
+        got_n = set(H.neighbors(s))
+        if s not in H or got_n != want_n:
+            _fail(site, wrap("read_api_mismatch"), cond, {"neighbors_of": s, "want": sorted(want_n), "got": sorted(got_n)})
     # mol labels
     for s in H.species_to_mol:
         if s not in sp:
